@@ -101,6 +101,19 @@ pub fn write_package(bins: &[BinSpec], derives: &[DeriveSpec]) {
     }
     b.push_str("    ]);\n    println!(\"cargo:rerun-if-changed=build.rs\");\n}\n");
     write_if_changed(&root.join("build.rs"), &b);
+    // sources of earlier batches
+    let keep: std::collections::HashSet<String> =
+        bins.iter().map(|b| b.stem.clone()).chain(derives.iter().map(|d| d.stem.clone())).chain(std::iter::once("fe_build".to_string())).collect();
+    for sub in ["src/bin", "idl", "cmds"] {
+        if let Ok(rd) = std::fs::read_dir(root.join(sub)) {
+            for e in rd.flatten() {
+                let stem = e.path().file_stem().map(|s| s.to_string_lossy().to_string()).unwrap_or_default();
+                if !keep.contains(&stem) {
+                    let _ = std::fs::remove_file(e.path());
+                }
+            }
+        }
+    }
     for x in bins {
         write_if_changed(&root.join(format!("idl/{}.varlink", x.stem)), &x.idl_text);
         write_if_changed(&root.join(format!("src/bin/{}.rs", x.stem)), &x.source);
@@ -118,6 +131,8 @@ fn cargo_env(cmd: &mut Command) {
     cmd.env("CARGO_NET_OFFLINE", "true")
         .env("CARGO_TARGET_DIR", target_dir())
         .env("RUSTFLAGS", "--cfg varlink_rust_verif -Awarnings")
+        // hundreds of throw-away bins: no incremental caches (they would dominate the target dir)
+        .env("CARGO_INCREMENTAL", "0")
         .env_remove("CARGO_MANIFEST_DIR")
         .env_remove("OUT_DIR");
 }
@@ -197,6 +212,29 @@ pub fn cargo_build(stems: &[String]) -> Result<BTreeMap<String, BinResult>, Stri
                 }
             }
             _ => {}
+        }
+    }
+    // throw-away bins of earlier batches: remove their artifacts (cargo rebuilds a bin whose output is gone)
+    for sub in ["debug", "debug/deps"] {
+        if let Ok(rd) = std::fs::read_dir(target_dir().join(sub)) {
+            for e in rd.flatten() {
+                let name = e.file_name().to_string_lossy().to_string();
+                let base = name.split(|c| c == '-' || c == '.').next().unwrap_or("").to_string();
+                let ours = base.len() == 17 && (base.starts_with('p') || base.starts_with('d')) && base[1..].chars().all(|c| c.is_ascii_hexdigit());
+                if ours && !stems.contains(&base) {
+                    let _ = std::fs::remove_file(e.path());
+                }
+            }
+        }
+    }
+    if let Ok(rd) = std::fs::read_dir(target_dir().join("debug/incremental")) {
+        for e in rd.flatten() {
+            let name = e.file_name().to_string_lossy().to_string();
+            let base = name.split('-').next().unwrap_or("").to_string();
+            let ours = base.len() == 17 && (base.starts_with('p') || base.starts_with('d')) && base[1..].chars().all(|c| c.is_ascii_hexdigit());
+            if ours {
+                let _ = std::fs::remove_dir_all(e.path());
+            }
         }
     }
     if lib_failed {
